@@ -13,5 +13,7 @@ Lemma link_ecme :
 Proof. repeat split. Qed.
 Lemma link_fallback :
   Gen.Student.nonfinite_dof_replaced_in_from_particles = true /\ Gen.Student.nonfinite_dof_replaced_in_from_global = true
+  /\ Gen.Student.each_mode_fitted_to_its_own_cluster = true
+  /\ Gen.Student.global_mode_fitted_to_a_weighted_resample_of_all_particles = true
   /\ Gen.Student.infinite_nu_returned_when_root_bracket_has_no_sign_change = true.
 Proof. repeat split. Qed.
